@@ -38,6 +38,7 @@
 static std::string xname(int d) { return "x" + std::to_string(d + 1); }
 
 // (0 (ndim nmini nmaxi nsect nsmax) radius coeffs angles (xvalid kfold hascode useball leaf) checkers samples target harvest)
+// sample = (sel coords vars code fext), () = undefined value
 static std::string run_moving(const Sx& c) {
   std::vector<int> ints = c[1].vi();
   int ndim = ints[0], nmini = ints[1], nmaxi = ints[2], nsect = ints[3], nsmax = ints[4];
@@ -53,7 +54,9 @@ static std::string run_moving(const Sx& c) {
   defineDefaultSpace(ESpaceType::RN, ndim);
 
   VectorDouble tab; VectorString names, locs;
-  for (int d = 0; d < ndim; d++) { for (int i = 0; i < n; i++) tab.push_back(smp[i][1][d].d()); names.push_back(xname(d)); locs.push_back(xname(d)); }
+  int nfex = n > 0 && smp[0].size() > 4 ? (int) smp[0][4].size() : 0;
+  for (int d = 0; d < ndim; d++) { for (int i = 0; i < n; i++) tab.push_back(smp[i][1][d].d(TEST)); names.push_back(xname(d)); locs.push_back(xname(d)); }
+  for (int f = 0; f < nfex; f++) { for (int i = 0; i < n; i++) tab.push_back(smp[i][4][f].d(TEST)); names.push_back("e" + std::to_string(f + 1)); locs.push_back("f" + std::to_string(f + 1)); }
   for (int v = 0; v < nvar; v++) { for (int i = 0; i < n; i++) tab.push_back(smp[i][2][v].d(TEST)); names.push_back("v" + std::to_string(v + 1)); locs.push_back("z" + std::to_string(v + 1)); }
   for (int i = 0; i < n; i++) tab.push_back(smp[i][0].b() ? 1. : 0.); names.push_back("s"); locs.push_back("sel");
   if (hascode) { for (int i = 0; i < n; i++) tab.push_back(smp[i][3].d(TEST)); names.push_back("c"); locs.push_back("code"); }
@@ -89,7 +92,9 @@ static std::string run_moving(const Sx& c) {
     }
   o << ") ";
   if (useball) { VectorInt el = nb->getBall().getIndices(T1, nmaxi); o << sx_vi(el); } else o << "()";
-  o << " (" << (nb->_biPtDist->_flagRotation ? 1 : 0) << " " << nb->_biPtDist->_ndim << " " << (nb->getFlagSector() ? 1 : 0) << "))";
+  o << " (" << (nb->_biPtDist->_flagRotation ? 1 : 0) << " " << nb->_biPtDist->_ndim << " " << (nb->getFlagSector() ? 1 : 0) << ") ";
+  // summary of the same target (Number, MaxDist, MinDist, NbNESect, NbCESect), asked last: it re-enters select()
+  { VectorDouble tab = nb->summary(0); o << sx_vd(tab) << ")"; }
   delete nb; delete dbin; delete dbout;
   return o.str();
 }
